@@ -259,7 +259,7 @@ def coerceVariables (fuel : Nat) (S : Schema) (o : Oracle) (vds : List VarDef) (
     match coerceVariable fuel S o vd raw with
     | .absent => acc
     | .value v => (acc.1.filter (fun p => p.1 != vd.name) ++ [(vd.name, v)], acc.2)
-    | .errors es => (acc.1, acc.2 ++ es.map (fun e => (vd.name, e, vd.loc)))) ([], [])
+    | .errors es => (acc.1, acc.2 ++ es.map (fun e => (vd.name, e, if e == "invalid-default" then vd.dloc else vd.loc)))) ([], [])
 
 /-- outcome of `argument_coercer` for one argument definition -/
 inductive ArgOut where
